@@ -2,7 +2,7 @@
 Tie: TaprootCommitmentEnv::Iterate stepped to the end (vh) vs the extracted Session.tce_iterate, on commitments built by an
 independent BIP341 implementation (python: tagged hashes via hashlib, curve arithmetic in tools/refcrypto.py) and every
 single-field corruption of them; the tweak check inside the model is answered by that reference (oracle)."""
-import itertools, hashlib
+import itertools, hashlib, re
 from engine import Check
 import refcrypto as R
 
@@ -38,6 +38,11 @@ def gen(chk):
                 mode = rng.random()
                 if mode < 0.1:
                     node = k                                   # equal to the running hash
+                elif mode < 0.3:
+                    # shares a prefix of any length with the running hash and differs right after it, in either direction
+                    n = rng.choice([1, 2, 8, 15, 16, 17, 24, 31])
+                    d = k[n] + rng.choice([-1, 1]) if 0 < k[n] < 255 else (1 if k[n] == 0 else 254)
+                    node = k[:n] + bytes([d]) + rb(31 - n)
                 elif mode < 0.55:
                     node = bytes([rng.randrange(0, k[0] + 1)]) + rb(31) if k[0] else rb(32)
                 else:
@@ -73,14 +78,44 @@ def gen(chk):
     for p in (bytes(32), b"\xff" * 32, (R.P - 1).to_bytes(32, "big"), (5).to_bytes(32, "big")):
         add(bytes([0xc0]) + p, bytes(rng.randrange(256) for _ in range(32)), b"\x51")
     chk.extra["valid_commitments"] = nvalid
-    return {"commitments": cases}
+    # whole sessions (--tx/--txin) on tapscript spends with control paths at the size bounds: 0, 1, 127, 128 nodes (legal) and 129 (refused)
+    import gen_spend as S
+    sess = []
+    for wn in (0, 1, 2, 127, 128):
+        for mut in (None, "control"):
+            c = S.build(rng, "p2tr-path", wn=wn, ht=0, mutate=mut)
+            sess.append("spend id=t%d_%s tx=%s txin=%s flags=%d cmds=c" % (wn, mut, c["spend"].encode().hex(), c["fund"].encode().hex(), 0x1FFFDF))
+            if wn == 128 and mut is None:
+                # one more node than allowed: append 32 bytes to the control block of the witness
+                raw = bytes.fromhex(c["spend"]); 
+                sess.append(("spend id=t129 tx=%s txin=%s flags=%d cmds=c" % (over_long(raw).hex().encode().hex(), c["fund"].encode().hex(), 0x1FFFDF)))
+    return {"commitments": cases, "sessions": sess}
+
+def over_long(raw):
+    """the same transaction with a 129-node control block (last witness item extended by 32 bytes; its compact size is 3 bytes: fd xx xx)"""
+    i = raw.rfind(b"\xfd\x21\x10")          # 0x1021 = 4129 = 33 + 32*128
+    if i < 0: return raw
+    n = 4129 + 32
+    end = i + 3 + 4129
+    return raw[:i] + b"\xfd" + n.to_bytes(2, "little") + raw[i + 3:end] + bytes(32) + raw[end:]
 
 def main(tier):
     chk = Check("C05", tier)
     chk.prove(PROP_FILES)
+    wrong = []
+    def inspect(c, il, ml):
+        m = re.search(r"\bid=t(\d+)(?:_(\w+))? ", c)
+        if not m: return
+        last = [l for l in il if re.match(r"R \S+ #\d+ ", l)]
+        ok = bool(last) and " done=1 " in last[-1] and " err=0 " in last[-1] and " st=01 " in last[-1]
+        want = int(m.group(1)) <= 128 and m.group(2) == "None"
+        if ok != want:
+            wrong.append((c, il, "a tapscript spend with a %s-node control path (%s) ends %s" % (m.group(1), "valid commitment" if want else "invalid commitment / oversized control block", "successfully" if ok else "with an error / is refused")))
     for name, cases in gen(chk).items():
-        diffs = chk.compare(name, cases, nontrivial=lambda c, il: len(c.split("control=")[1].split()[0]) > 66 or "failed" in il[0])
+        diffs = chk.compare(name, cases, nontrivial=lambda c, il: "control=" not in c or len(c.split("control=")[1].split()[0]) > 66 or "failed" in il[0], inspect=inspect)
         for c, il, ml, sl, fl in diffs[:4]:
             chk.violation("commitment-mismatch", "stepwise commitment check differs from the model (proved equal to the BIP341 rule)",
                           {"stream": name, "case": c, "impl": il, "model_eq_spec": ml})
+    for c, il, why in wrong[:3]:
+        chk.violation("commitment-validity", why, {"stream": "sessions", "case": c[:12000], "impl": [l[:600] for l in il[-3:]]})
     return chk.finish(RULE, trusted_extra=["tools/refcrypto.py answers the model's tweak-check oracle (CheckTapTweak) and builds the valid commitments"])
